@@ -44,7 +44,7 @@ int IsFieldDescriptorValid(const Avtp_FieldDescriptor_t* fieldDescriptor)
 }
 
 uint64_t Avtp_GetField(const Avtp_FieldDescriptor_t* fieldDescriptors,
-        uint8_t numFields, uint8_t* pdu, uint8_t field)
+        uint8_t numFields, uint8_t* pdu, uint32_t field)
 {
     uint64_t result = 0;
     if (fieldDescriptors != NULL && pdu != NULL && field < numFields) {
@@ -76,7 +76,7 @@ uint64_t Avtp_GetField(const Avtp_FieldDescriptor_t* fieldDescriptors,
 }
 
 void Avtp_SetField(const Avtp_FieldDescriptor_t* fieldDescriptors,
-        uint8_t numFields, uint8_t* pdu, uint8_t field, uint64_t value)
+        uint8_t numFields, uint8_t* pdu, uint32_t field, uint64_t value)
 {
     if (fieldDescriptors != NULL && pdu != NULL && field < numFields) {
         const Avtp_FieldDescriptor_t* fieldDescriptor = &fieldDescriptors[field];
